@@ -119,7 +119,10 @@ inline std::string structCase(Src &s, const World &W, Inst **keep = nullptr, std
     size_t bufLen = bufSel < 2 ? stream.size() + 1 + bufSel : bufSel == 2 ? bufRaw : std::min((size_t) 300, stream.size() / 2 + 2);
     if (bufLen < 2) bufLen = 2;
     static std::unique_ptr<Inst> held;
-    held.reset(new Inst(fuzzCfg(W, bufLen, queueLen, heapLen)));
+    InstCfg fk = fuzzCfg(W, bufLen, queueLen, heapLen);
+    fk.decoy = s.prob(1, 4);            // a second instrument (other table positions, shorter table, other units) is fed the same chunks first
+    fk.noOptionalCallbacks = s.prob(1, 8);
+    held.reset(new Inst(fk));
     Inst &I = *held;
     I.cfg.traceValues = false;
     size_t pos = 0;
